@@ -109,7 +109,7 @@ PROPS["C07"] = {
     "technique": "postcondition + frame contracts on each reset/load function from an arbitrary (fully symbolic, not only invariant-satisfying) pre-state, Kani/CBMC",
     "level_text": "Proof: each reset function's postcondition (documented fields at power-on values, documented frame bit-identical) is discharged from every possible pre-state, so it holds after any history; load = master reset + RAM image + limits.",
     "level_note": "Trusted: Kani/CBMC, rustc. MISR, UART bytes, DAISR and the non-jumper DASR bits are not named by the statement and left unconstrained. R.load is BOUNDED in the image length (<= 6 symbolic bytes over 3 lines). The 'runs cycle-for-cycle as on a new machine' consequence rests on the edge being a function of the CPU projection: proved as a 2-safety obligation on the real edge in the thorough tier (c07_x_edge_independent_of_board); the induction over edges is argued.",
-    "bounded": ["c07_load: image length <= 6 bytes over three lines (unwind 10); the fill loop is uniform in the address"],
+    "bounded": ["c07_load: image length <= 6 symbolic bytes over three lines (unwind 10); thorough tier adds c07_x_load_*_clears_stale_ram (empty and one-byte image, unwind 245)"],
     "samples": [{"obligation": "C07.R.master.bus-and-board", "text": "master_reset: inputs/timer/outputs/MICR/UCR power-on, board outputs/DAICR/fan/UIO directions power-on, RAM and board inputs bit-identical", "domain": "every field of RawMachine symbolic incl. all f32 bit patterns"}],
     "trusted": [],
     "assumptions": [],
@@ -280,10 +280,10 @@ PROPS["C11"] = {
                         ("emulator-2a-lib/src/machine/raw/mod.rs", "c11_raw.rs", "verif_c11r"),
                         ("emulator-2a-lib/src/machine/mod.rs", "c11_machine.rs", "verif_c11")],
     "pregen": _pregen_c09,
-    "groups": [{"match": "c11_(loop_logic|canary)", "flags": ["-Z", "stubbing", "--cbmc-args", "--unwindset", "memcmp.0:250"]},
+    "groups": [{"match": "c11_(loop_logic|canary|x_loop_logic_long)", "flags": ["-Z", "stubbing", "--cbmc-args", "--unwindset", "memcmp.0:250"]},
                {"match": "c11_stuck_step_returns", "flags": ["--cbmc-args", "--unwindset", "memcmp.0:250"]},
                {"match": ".*", "flags": []}],
-    "select": lambda allh, tier, seed: [h for h in allh if (h.startswith("c11_") and (tier != "quick" or h != "c11_stuck_step_returns")) or h in ("c09_step", "c09_stuck", "c09_init")],
+    "select": lambda allh, tier, seed: [h for h in allh if (h.startswith("c11_") and (tier != "quick" or h not in ("c11_stuck_step_returns", "c11_x_loop_logic_long"))) or h in ("c09_step", "c09_stuck", "c09_init")],
     "unwind_is_clause": True,
     "functions": ["Machine::trigger_key_clock", "Machine::set_step_mode (frame: C05)", "RawMachine::is_instruction_done", "RawMachine::trigger_clock_edge (as callee contract; real in T.real/T.term)"],
     "timeout": 900,
@@ -338,7 +338,7 @@ PROPS["C06"] = {
     "timeout": 900,
     "technique": "no-panic postconditions (Kani's generated panic/overflow/bounds obligations) on Translator::push_instruction per instruction variant and on Machine::load, under the precondition 'accepted by the parser'; crashing regions split off as recorded findings",
     "level_text": "Proof (partial, see note): push_instruction returns normally for every DEC operand shape, representative one-byte/jump/two-byte/limit instructions, forward .ORG and .BYTE at every position of the address counter that leaves room in the 8-bit address space; Machine::load returns normally for images that fit the RAM. The three remaining crash regions of the unchanged tree are recorded findings.",
-    "level_note": "Trusted: Kani/CBMC, rustc, kani::stub(RandomState::new). NOT DECIDED: Translator::finish with labels referenced in another letter case (hash-map look-up exhausts the verifier) and the remaining instruction variants with constant/label operands (same limit as C02). BOUNDED: .ORG distance/.BYTE n <= 5, load images <= 6 symbolic bytes plus the concrete 240-byte image.",
+    "level_note": "Trusted: Kani/CBMC, rustc, kani::stub(RandomState::new). NOT DECIDED: Translator::finish with labels referenced in another letter case (hash-map look-up exhausts the verifier), the parser-side label validation validate_lines (String/to_lowercase/Vec<String> handling: a one-instruction AST did not finish in 10 min; contract kept in contracts/c06_validate.rs, not registered) and the remaining instruction variants with constant/label operands (same limit as C02). BOUNDED: .ORG distance/.BYTE n <= 5, load images <= 6 symbolic bytes plus the concrete 240-byte image.",
     "bounded": ["c06_org_forward / c06_byte: distance / n <= 5", "c06_load_small_images: <= 6 bytes over two lines; c06_load_full_ram: one concrete 240-byte image"],
     "samples": [{"obligation": "C06.P.push.returns-normally", "text": "accepted(inst) & next_addr <= 251 ==> push_instruction(inst) does not panic", "domain": "symbolic registers/constants/address counter per variant"}],
     "trusted": ["kani::stub(std::hash::RandomState::new -> fixed keys)"],
